@@ -1074,7 +1074,15 @@ impl Transaction {
                 if slip.utxoset_key == [0; UTXO_KEY_LENGTH] {
                     return false;
                 }
-                if !blockchain.is_slip_unlocked(&slip.utxoset_key) {
+                if validate_against_utxo {
+                    if !blockchain.is_slip_unlocked(&slip.utxoset_key) {
+                        return false;
+                    }
+                } else if Slip::parse_slip_from_utxokey(&slip.utxoset_key).is_err() {
+                    // a node which has not loaded the whole ledger yet (it joined, or restarted,
+                    // past the purge horizon) can neither look the staked slips up nor tell how
+                    // old they are relative to a chain it does not have, exactly as for ordinary
+                    // inputs : only the form of the key can be checked
                     return false;
                 }
                 let utxo_slip = Slip::parse_slip_from_utxokey(&slip.utxoset_key).unwrap();
